@@ -17,7 +17,7 @@ ASSUMPTIONS = ['reference evaluator lv/ref.py is the oracle (checked against doc
                'examples in lv/selftest.py)', 'CPython sqlite3',
                'composite values compared up to SQLite JSON text encoding',
                'dialect-library parse memoised per process (filled by the real parser)']
-OPTS = dict(p_colnames=0.1, p_unnest_chain=0.08, p_in_lit_left=0.15, p_head_perm=0.3, p_if_composite=0.3, p_recif=0.12)
+OPTS = dict(p_colnames=0.1, p_uminus=0.12, p_unnest_chain=0.08, p_in_lit_left=0.15, p_head_perm=0.3, p_if_composite=0.3, p_recif=0.12)
 
 
 def gen_case(rng):
